@@ -116,6 +116,12 @@ def parse(it, d, reader, ctxobj=None, node=None):
         return None
     if k == 'Bytes':
         n = d.args[0]
+        if isinstance(n, (FuncVal, Builtin)):
+            n = it.call(n, [ctxobj], {}, node)          # length given as a function of the fields parsed so far
+        if not isinstance(n, int):
+            if not is_intlike(n):
+                raise Unsupported('Bytes length %s' % type(n).__name__)
+            n = zi(n)
         need(it, reader, n, node)
         b = FBytes(f, reader.pos, n)
         reader._write('pos', z3.simplify(reader.pos + n))
